@@ -366,7 +366,8 @@ class TokenCategoryHierarchyMapper:
         Returns:
             Set[TokenCategory]: The list of children categories of the parent category.
         """
-        return set(cls.hierarchy.get(parent, {}).keys())
+        subtree = cls._find_subtree(cls.hierarchy, parent)
+        return set(subtree.keys()) if subtree is not None else set()
 
     @classmethod
     def _nodes(cls, tree: _hierarchy_typing) -> Set[TokenCategory]:
